@@ -816,9 +816,10 @@ where
             }
         }
 
-        // Graph is reducible iff the FE graph is acyclic and every node is reachable from head.
-        let every_node_is_reachable = fe_graph.unreachable_vertices(head)?.is_empty();
-        Ok(every_node_is_reachable && fe_graph.is_acyclic(head))
+        // Graph is reducible iff the FE graph is acyclic. Removing back edges never disconnects
+        // a vertex from head, and vertices which are unreachable from head are not part of the
+        // flow graph rooted at head, so only the part reachable from head is considered.
+        Ok(fe_graph.is_acyclic(head))
     }
 
     /// Computes the set of natural loops in the graph
